@@ -711,6 +711,21 @@ def r06a(P, R):
         R.check("R06-a", "segment-field-order", got == ROLES, "segment fields are emitted in Source Map v3 order",
                 "segment fields are computed from the quantities remembered in %s; Source Map v3 requires [column, source, line, column, name], "
                 "each field from its own quantity only" % ["|".join(o) for o in order], loc=f.loc())
+    # within one mappings string only the generated column starts over (at each new generated line); source, original line,
+    # original column and name are relative to the previous segment throughout — add_entry may re-base none of them to a constant
+    role_of = {b_: r_ for r_, b_ in segment_roles(P).items()}
+    rebased = {}
+    for b_, e_, i in base_assigns(V, f):
+        if not quantity(pv.atoms(e_)) and int_of(P, e_) is not None:
+            rebased.setdefault(b_, []).append(int_of(P, e_))
+    for b_ in sorted(rebased):
+        if b_ not in role_of:
+            R.undecided("R06-a", b_ + ":rebased", "`%s` is set to a constant in add_entry and the field of the segment it stands for is not known" % b_, loc=f.loc())
+        else:
+            R.check("R06-a", b_ + ":rebased", role_of[b_] == "gcol", "only the generated column starts over within a mappings string",
+                    "add_entry sets `%s` (the %s base) to the constant %s: in a Source Map v3 mappings string only the generated column starts over "
+                    "(on a new line); the %s of every segment is relative to the previous segment, whatever its source or line — the decoder keeps "
+                    "its running value, so every later segment is shifted" % (b_, ROLE_NAME[role_of[b_]], rebased[b_], ROLE_NAME[role_of[b_]]), loc=f.loc())
     restart_rule(P, R)
 
 
@@ -1229,6 +1244,41 @@ def r06e(P, R):
             R.undecided("R06-e", "index-table:%d" % j, "FileMap literal without an explicit index table field", loc=rg.loc())
             continue
         fi = C.resolve(fi[0]["e"])
+        # hoisted per-item state: the table of an output written inside a loop must be computed under the loop.  A vector declared
+        # outside the loop and written slot-wise inside it (directly or in a helper that gets it as `&mut`) carries the slots of
+        # earlier iterations into the later tables.
+        loops_here = [c_[1] for c_ in enclosing_contexts(rg, i) if c_[0] == "loop"]
+        if loops_here:
+            loop = loops_here[0]
+            used, seen_l, todo = set(), set(), [fi]
+            while todo:
+                for y in subnodes(todo.pop()):
+                    if y.get("k") == "Path" and "local" in y and y["local"] not in seen_l:
+                        seen_l.add(y["local"])
+                        used.add(y["local"])
+                        if y["local"] in C.single:
+                            todo.append(C.single[y["local"]])
+            lets = {b_["local"]: n_ for n_, _ in nodes if n_.get("k") == "Let" for b_ in subnodes(n_["pat"]) if b_.get("k") == "Binding"}
+            outer = {l_ for l_ in used if l_ in lets and not templates_contains(loop, lets[l_]) and "usize" in norm(str(lets[l_]["pat"].get("t", "")))}
+
+            def root_local(e_):
+                e_ = strip(e_)
+                while isinstance(e_, dict) and e_.get("k") in ("Index", "Field"):
+                    e_ = strip(e_["e"])
+                e_ = C.resolve(e_)
+                return e_.get("local") if isinstance(e_, dict) and e_.get("k") == "Path" else None
+            writes = [(x, root_local(x["l"])) for x in subnodes(loop) if x.get("k") in ("Assign", "AssignOp") and strip(x["l"]).get("k") == "Index"]
+            writes = [(x, l_) for x, l_ in writes if l_ in outer]
+            if writes:
+                resets = [x for x, _ in writes if is_sentinel(P, x["r"])]
+                name = lets[writes[0][1]]["pat"].get("name", "?")
+                if resets:
+                    R.undecided("R06-e", "table-per-iteration:%d" % j, "`%s` lives across iterations and is both set and reset slot-wise inside the loop" % name, loc=rg.loc())
+                else:
+                    R.violated("R06-e", "table-per-iteration:%d" % j, "the index table of a per-operation output is taken from `%s`, a vector built before the loop "
+                               "whose slots are overwritten inside it and never put back: the slot set for one operation file is still set in the tables "
+                               "of the following ones (their maps list one file in `sources` but index several)" % name, loc=rg.loc())
+                continue
         a = pv.deep_atoms(fi)
         if has_call(a, "FileStore::iter"):
             R.holds("R06-e", "filemap-same-store:%d" % j, "indices are computed by iterating the file store", loc=rg.loc())
